@@ -43,6 +43,10 @@ class Rule :
                 if getattr(m, k) != v:
                     return
 
+            if hasattr(self, '_messageType'):
+                if m._messageType != _mtypes.get(self._messageType):
+                    return
+
             if hasattr(self, 'path_namespace'):
                 if (
                     m.path is None
